@@ -266,14 +266,15 @@ theorem read_only_no_mutator_slot {app : Registry} {adminNs : Ns} {mode : Str} {
   simp [instrumentReg, registered_ro hro, hne']
 
 /-- In the writable configuration the same request does resolve to the admin's handler. -/
-theorem writable_resolve (app : Registry) (adminNs : Ns) {mode : Str} (hd : isDev mode = true)
+theorem writable_resolve (app : Registry) {adminNs : Ns} (hadm : adminNs ≠ star) {mode : Str}
+    (hd : isDev mode = true)
     {ev : Str} (hev : ev ∈ mutators) (args : List J) :
     resolve (instrumentReg app adminNs mode false) adminNs (.str ev) args =
       .ok (.fn (.fn adminNs ev) args) := by
   have hin : ev ∈ registered mode false := (registry_mutators mode false ev hev).mpr ⟨hd, rfl⟩
   have hstar : ¬ ev = star := by
     intro e; subst e; simp [mutators, star] at hev
-  simp [resolve, instrumentReg, hashable, inDict, evStr, hin, hstar]
+  simp [resolve, instrumentReg, hashable, inDict, evStr, hin, hstar, hadm]
 
 /-! ### frame: read-only admin traffic does nothing (over `Sio.Server.step`) -/
 
@@ -333,8 +334,10 @@ theorem read_only_handler_inert
 /-- **refused ⇒ no membership**: the admin CONNECT of a client whose payload the gate does not
     admit (the connect handler's outcome is `connectOutcome`) leaves the room relation exactly
     as it was (instance of the server model's connect with outcome *refuse*; `hfresh` is the
-    trusted freshness of `eio.generate_id()`; `henv`: the transport was opened). -/
+    trusted freshness of `eio.generate_id()`; `henv`: the transport was opened; `hadm`: the admin
+    namespace is not called `*` — a constructor-time fact, `/admin` by default). -/
 theorem refused_no_membership (hreg : cfg.reg = instrumentReg app adminNs mode ro)
+    (hadm : adminNs ≠ star)
     (s : Srv) (t : Eio) (payload : Option J) (acfg : AuthCfg)
     (hscript : cfg.script.onConnect s.nConn = connectOutcome acfg payload)
     (hrefuse : admitsWire acfg payload = false)
@@ -343,11 +346,12 @@ theorem refused_no_membership (hreg : cfg.reg = instrumentReg app adminNs mode r
     (handleConnect cfg s t (some adminNs) payload).1.rooms = s.rooms ∧
     ∀ o ∈ (handleConnect cfg s t (some adminNs) payload).2,
       (∃ p, o = .send t p) ∨ (∃ a, o = .invoke (.fn adminNs "connect".toList) a) :=
-  ⟨handleConnect_refused hreg s t payload acfg hscript hrefuse henv hfresh,
-   handleConnect_refused_outs hreg s t payload acfg hscript hrefuse henv⟩
+  ⟨handleConnect_refused hreg hadm s t payload acfg hscript hrefuse henv hfresh,
+   handleConnect_refused_outs hreg hadm s t payload acfg hscript hrefuse henv⟩
 
 /-- Contrast (non-vacuity of the above): an admitted attempt does become a member. -/
 theorem admitted_membership (hreg : cfg.reg = instrumentReg app adminNs mode ro)
+    (hadm : adminNs ≠ star)
     (s : Srv) (t : Eio) (payload : Option J) (acfg : AuthCfg)
     (hscript : cfg.script.onConnect s.nConn = connectOutcome acfg payload)
     (hadmit : admitsWire acfg payload = true)
@@ -355,7 +359,7 @@ theorem admitted_membership (hreg : cfg.reg = instrumentReg app adminNs mode ro)
     (hnew : Rooms.sidOf s.rooms adminNs t = none) :
     Rooms.isMember (handleConnect cfg s t (some adminNs) payload).1.rooms adminNs none
       (sidName s.nextSid) = true :=
-  handleConnect_admitted hreg s t payload acfg hscript hadmit henv hnew
+  handleConnect_admitted hreg hadm s t payload acfg hscript hadmit henv hnew
 
 end frame
 
@@ -407,7 +411,7 @@ example : admitsWire (.dict exCreds) (some exSuperset) = false ∧
     (handleConnect (exCfg (some exSuperset)) exSrv "A".toList (some exAdminNs) (some exSuperset)).1.rooms
       = exSrv.rooms ∧ exSrv.rooms.length = 3 := by
   refine ⟨by decide, by decide, by decide, ?_, rfl⟩
-  exact (refused_no_membership (app := exApp) (mode := "development".toList) (ro := true) rfl
+  exact (refused_no_membership (app := exApp) (mode := "development".toList) (ro := true) rfl (by decide)
     exSrv "A".toList (some exSuperset) (.dict exCreds) rfl (by decide) (by decide) (by decide)).1
 
 /-- the right credentials (keys permuted) are admitted -/
@@ -424,6 +428,6 @@ example : resolve (exCfg none).reg exAdminNs (.str "_disconnect".toList)
 example : resolve (instrumentReg exApp exAdminNs "development".toList false) exAdminNs
     (.str "_disconnect".toList) [.str "a0".toList] =
     .ok (.fn (.fn exAdminNs "_disconnect".toList) [.str "a0".toList]) :=
-  writable_resolve exApp exAdminNs (by decide) (by decide) _
+  writable_resolve exApp (adminNs := exAdminNs) (by decide) (by decide) (by decide) _
 
 end Sio.C18
